@@ -187,8 +187,9 @@ void h_run(Ctx &c)
 		if (s.roles == 0) {
 			unsigned total = s.nputs;
 			s.nputs = (total + 1) / 2;
-			vrt_spawn(producer_fn, nullptr, 1);
-			vrt_spawn(producer_fn, nullptr, 1);
+			// two invocations of the one producer interrupt (single-producer contract): same role
+			vrt_set_role(vrt_spawn(producer_fn, nullptr, 1), 1);
+			vrt_set_role(vrt_spawn(producer_fn, nullptr, 1), 1);
 			vrt_isr_enable(1);
 			vrt_point();
 			consumer_fn(nullptr);
@@ -199,8 +200,9 @@ void h_run(Ctx &c)
 		} else {
 			std::vector<unsigned> plan = s.consumer_plan;
 			s.consumer_plan.assign(plan.begin(), plan.begin() + plan.size() / 2);
-			vrt_spawn(consumer_fn, nullptr, 1);
-			vrt_spawn(consumer_fn, nullptr, 1);
+			// two invocations of the one consumer interrupt (single-consumer contract): same role
+			vrt_set_role(vrt_spawn(consumer_fn, nullptr, 1), 1);
+			vrt_set_role(vrt_spawn(consumer_fn, nullptr, 1), 1);
 			vrt_isr_enable(1);
 			vrt_point();
 			producer_fn(nullptr);
